@@ -334,6 +334,10 @@ def run_impl(ctx, case, tmpdir):
                                   tags=dict(tagbase, clause="npz_key"))
                     res.append(("S", "ok ? ? " + show_keys(keys, arrays)))
                     continue
+                if key is None and (before is None or not ow) and chosen != "arr_0":
+                    ctx.violation(dict(cslim, at=n_op), "arr_0", chosen,
+                                  "save(key=None) to a fresh / replaced archive stores at arr_0, the entry a key-less load reads",
+                                  tags=dict(tagbase, clause="npz_default_key"))
                 if key is None and not ARR_RE.match(chosen):
                     ctx.violation(dict(cslim, at=n_op), "arr_<k>", chosen, "automatic key has the pattern arr_<k>",
                                   tags=dict(tagbase, clause="npz_key"))
@@ -464,7 +468,7 @@ def eval_case(ctx, case, root):
 
 def run(ctx, driver):
     r = ctx.rng
-    n = ctx.scale(400, 6000)
+    n = ctx.scale(1000, 8000)
     root = tempfile.mkdtemp(prefix="pds_c17_", dir="/tmp")
     todo = []
     try:
